@@ -680,14 +680,20 @@ class Driver:
         elif a == "EditSpec":
             self.specv[h["t"]] += 1
             self.write_workflow()
-        elif a == "Rename":
+        elif a in ("Rename", "RenameBack"):
             if self.backend == "local":
                 return
-            # a new, never used name; what is stored under the old one is nobody's any more
-            self.renames = getattr(self, "renames", 0) + 1
-            old = self.perm[h["t"]]
+            self.perm0 = getattr(self, "perm0", None) or dict(self.perm)
+            away = self.perm[h["t"]] != self.perm0[h["t"]]
+            if away == (a == "Rename"):
+                return      # does not apply to the real project (history diverged)
             self.perm = dict(self.perm)
-            self.perm[h["t"]] = "%s_r%d" % (old.split("_r")[0] if "_r" in old else old, self.renames)
+            if a == "Rename":
+                # a new, never used name; what is stored under the old one stays where it is
+                self.renames = getattr(self, "renames", 0) + 1
+                self.perm[h["t"]] = "%s_r%d" % (self.perm0[h["t"]], self.renames)
+            else:
+                self.perm[h["t"]] = self.perm0[h["t"]]
             self.inv = {v: k for k, v in self.perm.items()}
             self.write_workflow()
         elif a == "SetUseHash":
@@ -863,7 +869,7 @@ class Driver:
                 self.step_clean(h)
             elif a == "Cancel":
                 self.step_cancel(h)
-            elif a in ("EditSource", "DeleteOutput", "EditSpec", "SetUseHash", "Rename"):
+            elif a in ("EditSource", "DeleteOutput", "EditSpec", "SetUseHash", "Rename", "RenameBack"):
                 self.step_env(h)
             elif a in ("JobStart", "JobEnd", "Purge", "JobInherit", "JobStick", "JobUnstick"):
                 self.step_sched(h)
